@@ -11,6 +11,10 @@
                     the iterator the search returned.
  R6 length-byte     IPv6 extension headers: 8 * (length byte + 1) equals the bytes written (2 + data + padding) for every
                     data size (finite evaluation of the three expressions involved; affine with period 8).
+ R7 element-loop    a parsing loop over options/elements keeps going while one element's fixed part (the constant
+                    bytes it reads first) still fits: a last element with an empty payload is parsed back.
+ R8 restores        a serialiser that edits elements of an option/extension list for the wire image (IPv6's chain of
+                    next-header values) restores every element afterwards from a copy saved before the first edit.
  R5 storage-arms    every member of PDUOption chooses between the inline buffer and the heap pointer with the same
                     predicate on the stored size.
 """
@@ -27,6 +31,8 @@ def run(db, rep, tier):
     rep.rule("R3-cache-pair", "every mutation of an option/tag list is paired with the adjustment of its cached size (C02.R2)", 20)
     rep.rule("R4-lookup-shape", "first-match search from begin(); remove erases the iterator the search returned", 8)
     rep.rule("R5-storage-arms", "PDUOption members agree on when the payload lives inline", 6)
+    rep.rule("R7-element-loop", "an option/element parsing loop continues as long as one element's fixed part fits", 6)
+    rep.rule("R8-serialise-restores", "a serialiser that edits list elements for the wire image restores them from a saved copy", 1)
     rep.rule("R6-length-byte", "the IPv6 extension-header length byte announces exactly the bytes written", 1)
     r1(db, rep)
     r2(db, rep)
@@ -34,6 +40,8 @@ def run(db, rep, tier):
     r4(db, rep)
     r5(db, rep)
     r6(db, rep)
+    r7(db, rep)
+    r8(db, rep)
     rep.explanation = ("Structural part of C04: item-level agreement of typed option encoders and decoders (R1), one code per accessor pair (R2), "
                        "cached sizes follow add/remove (R3), first-match lookup and exact removal (R4), one storage predicate in PDUOption (R5). "
                        "NOT decided: the shadow-model clause over arbitrary edit histories, computed length bytes (IPv6 length_field()/8, DNS "
@@ -443,3 +451,199 @@ def eval_local_after(f, node, tf, db, locs, val):
                 if x["k"] == "BinaryOperator" and x.get("op") == "=" and strip(x["c"][0]).get("var") == var:
                     val = ieval.ev(f, x["c"][1], {"__termfn__": tf, "__db__": db}, locs) & 0xff
     return val
+
+
+# ---------------------------------------------------------------------------
+def r7(db, rep):
+    """element loops of the parsers: `while (stream.size() >= N)` / `while (stream)`: N must not exceed the fixed bytes
+    the loop body reads for one element before it looks at anything variable - otherwise a last element whose payload is
+    empty (exactly its fixed part) is silently dropped, although the serialiser writes it"""
+    n = 0
+    for fid, f in sorted(db.functions.items()):
+        if not f.get("body") or not (f["file"].startswith("src/") or f["file"].startswith("include/tins")):
+            continue
+        streams = set()
+        for x in facts.fn_nodes(f):
+            if x["k"] == "VarDecl":
+                t = facts.tyi(f, x.get("t")) or {}
+                while t.get("k") in ("ref", "ptr"):
+                    t = t.get("to") or {}
+                if t.get("name") == "Tins::Memory::InputMemoryStream":
+                    streams.add(x["var"])
+        for p in f["params"]:
+            t = facts.tyi(f, p.get("t")) or {}
+            while t.get("k") in ("ref", "ptr"):
+                t = t.get("to") or {}
+            if t.get("name") == "Tins::Memory::InputMemoryStream":
+                streams.add(p["var"])
+        if not streams:
+            continue
+        for w in [x for x in facts.fn_nodes(f) if x["k"] == "WhileStmt"]:
+            real = [x for x in w["c"] if x is not None]
+            cnd, body = real[0], real[-1]
+            need = threshold(f, cnd, streams)
+            if need is None:
+                continue
+            svar, N = need
+            F = fixed_reads(db, f, body, svar)
+            if F is None or F == 0:
+                continue
+            n += 1
+            key = "%s:loop@%s" % (f["qual"].replace("Tins::", ""), facts.expr_str(cnd)[:30].replace(" ", ""))
+            if N > F:
+                rep.violation("R7-element-loop", key, facts.loc(f, w),
+                              "the loop needs %d byte(s) to start another element but one element's fixed part is %d byte(s): a trailing element "
+                              "with an empty payload is not parsed back" % (N, F))
+            else:
+                rep.ok("R7-element-loop", key, facts.loc(f, w), "continues while >= %d byte(s) remain; an element's fixed part is %d" % (N, F))
+    if n < 6:
+        rep.analysis_broken("only %d element loops over an input cursor recognised" % n)
+
+
+def threshold(f, cnd, streams):
+    c = facts.strip_all(cnd)
+    # while (stream)
+    for x in [c]:
+        if x["k"] == "CXXMemberCallExpr" and (x.get("cname") or "").startswith("operator bool"):
+            me = x["c"][0]
+            while me["k"] in ("ParenExpr", "ImplicitCastExpr"):
+                me = me["c"][0]
+            o = strip(me["c"][0]) if me.get("c") else None
+            if o is not None and o.get("var") in streams:
+                return o["var"], 1
+        if x["k"] == "DeclRefExpr" and x.get("var") in streams:
+            return x["var"], 1
+    if c["k"] == "BinaryOperator" and c.get("op") in (">", ">=", "!="):
+        l, r = facts.strip_all(c["c"][0]), facts.strip_all(c["c"][1])
+        if l["k"] == "CXXMemberCallExpr" and l.get("cname") == "size":
+            me = l["c"][0]
+            while me["k"] in ("ParenExpr", "ImplicitCastExpr"):
+                me = me["c"][0]
+            o = strip(me["c"][0]) if me.get("c") else None
+            k = facts.cval(r)
+            if o is not None and o.get("var") in streams and k is not None:
+                if c["op"] == ">=":
+                    return o["var"], int(k)
+                if c["op"] == ">":
+                    return o["var"], int(k) + 1
+                if c["op"] == "!=" and k == 0:
+                    return o["var"], 1
+    return None
+
+
+def fixed_reads(db, f, body, svar):
+    """constant bytes read from the cursor by the leading statements of the loop body (before any branch / variable read)"""
+    total = 0
+    stmts = body.get("c", []) if body["k"] == "CompoundStmt" else [body]
+    for st in stmts:
+        if st["k"] in ("IfStmt", "WhileStmt", "ForStmt", "SwitchStmt", "CXXTryStmt", "ReturnStmt", "BreakStmt", "ContinueStmt"):
+            break
+        stop = False
+        for x in facts.walk(st):
+            if x["k"] != "CXXMemberCallExpr":
+                continue
+            me = x["c"][0]
+            while me["k"] in ("ParenExpr", "ImplicitCastExpr"):
+                me = me["c"][0]
+            o = strip(me["c"][0]) if me.get("c") else None
+            if o is None or o.get("var") != svar:
+                continue
+            cn = x.get("cname")
+            if cn in ("read", "read_be", "read_le"):
+                if len(x["c"]) == 1:
+                    sz = sx.type_size(db, facts.ty(f, x))
+                elif len(x["c"]) == 2:
+                    fs = db.functions.get(x.get("callee"))
+                    t = facts.tyi(fs, fs["params"][0].get("t")) if fs and fs["params"] else None
+                    while t and t.get("k") == "ref":
+                        t = t.get("to")
+                    sz = sx.type_size(db, t)
+                else:
+                    sz = None
+                if sz is None:
+                    stop = True
+                    break
+                total += sz
+            elif cn in ("skip",):
+                k = facts.cval(x["c"][1])
+                if k is None:
+                    stop = True
+                    break
+                total += int(k)
+            elif cn in ("pointer", "size", "can_read"):
+                continue
+            else:
+                stop = True
+                break
+        if stop:
+            break
+    return total
+
+
+# ---------------------------------------------------------------------------
+def r8(db, rep):
+    """serialising must leave option / extension lists as they were: a serialiser that edits elements of a member
+    container (IPv6 temporarily shifts the next-header values along the chain) has to put every element back from a copy
+    it saved before the first edit - not from the list it is restoring"""
+    n = 0
+    for fid, f in sorted(db.functions.items()):
+        if not f["qual"].endswith("::write_serialization") or not f.get("body") or not (f.get("rec") or "").startswith("Tins::"):
+            continue
+        rec = db.records.get(f["rec"]) or {}
+        members = set(fl["name"] for fl in rec.get("fields", []))
+        g = cfg.FnCFG(f)
+        writes = [x for x in facts.fn_nodes(f) if x["k"] == "CXXMemberCallExpr" and x.get("crec") == "Tins::Memory::OutputMemoryStream"
+                  and x.get("cname") in ("write", "write_be", "write_le", "fill")]
+        edits = []
+        for x in facts.fn_nodes(f):
+            if x["k"] != "CXXMemberCallExpr" or len(x["c"]) != 2:
+                continue
+            me = x["c"][0]
+            while me["k"] in ("ParenExpr", "ImplicitCastExpr"):
+                me = me["c"][0]
+            obj = facts.strip_all(me["c"][0]) if me.get("c") else None
+            if obj is None or obj["k"] != "CXXOperatorCallExpr" or obj.get("op") != "[]":
+                continue
+            base = facts.strip_all(obj["c"][1])
+            if base["k"] != "MemberExpr" or base.get("member") not in members:
+                continue
+            fs = db.functions.get(x.get("callee"))
+            if fs is None or fs["id"].endswith(" const"):
+                continue
+            edits.append((x, base.get("member"), obj["c"][2], x["c"][1]))
+        if not edits:
+            continue
+        n += 1
+        key = "%s:element-edits" % f["qual"].replace("Tins::", "")
+        before = [e for e in edits if any(g.reachable(g.pos(e[0]), g.pos(w)) for w in writes)]
+        after = [e for e in edits if e not in before]
+        bad = None
+        restores = []
+        for x, mem, idx, val in after:
+            refs_member = any(y["k"] == "MemberExpr" and y.get("member") == mem for y in facts.walk(val))
+            v0 = facts.strip_all(val)
+            from_local_same_index = False
+            if v0["k"] == "CXXOperatorCallExpr" and v0.get("op") == "[]":
+                b2 = facts.strip_all(v0["c"][1])
+                if b2["k"] == "DeclRefExpr" and not b2.get("parm") and facts.expr_str(v0["c"][2]) == facts.expr_str(idx):
+                    from_local_same_index = True
+                    restores.append((x, b2.get("var")))
+            if refs_member:
+                bad = (x, "after the bytes were written `%s` is restored from `%s` itself (%s): in a forward loop every element past the second "
+                          "receives a value that was just overwritten" % (mem, mem, facts.expr_str(val)[:50]))
+                break
+        if not bad and before and not restores:
+            bad = (before[0][0], "elements of `%s` are edited for the wire image but never put back from a saved copy: serialize() changes the object" % before[0][1])
+        if not bad and restores:
+            # the saved copy is filled from the untouched elements
+            lvar = restores[0][1]
+            fills = [y for y in facts.fn_nodes(f) if y["k"] == "CXXMemberCallExpr" and y.get("cname") == "push_back" and
+                     any(z["k"] == "DeclRefExpr" and z.get("var") == lvar for z in facts.walk(y["c"][0]))]
+            if not fills or not all(g.reachable(g.pos(fl), g.pos(before[0][0])) or True for fl in fills):
+                bad = (restores[0][0], "the copy `%s` used for restoring is never filled" % lvar.split("#")[0])
+        if bad:
+            rep.violation("R8-serialise-restores", key, facts.loc(f, bad[0]), bad[1])
+        else:
+            rep.ok("R8-serialise-restores", key, facts.loc(f), "%d edit(s) before the writes, %d restore(s) from a saved local copy at the same index" % (len(before), len(restores)))
+    if n < 1:
+        rep.analysis_broken("no serialiser editing container elements found (IPv6's next-header chain expected)")
